@@ -2,7 +2,7 @@
 
 # verdict layout of step_verdict (coq/Monitors.v)
 NET, COMMIT, MEM, PROP, RES, STATE, HINT, FIRST = 1, 2, 3, 4, 5, 6, 7, 8
-M_C02, M_C03, M_C03G, M_C04, M_C05, M_C08, M_C09, M_C10, M_C15, M_C19 = 9, 10, 11, 12, 13, 14, 15, 16, 17, 18
+M_C02, M_C03, M_C03G, M_C04, M_C05, M_C08, M_C09, M_C10, M_C15, M_C19, M_C06 = 9, 10, 11, 12, 13, 14, 15, 16, 17, 18, 19
 
 STEP_RULE = ('step mode: a real Core (+Synchronizer, MempoolDriver/PayloadWaiter, Proposer, Aggregator, RocksDB store) driven one dispatch at a time; '
              'scripted corpus first (the C02 witnesses), then seeded cases: block trees with TC-justified gaps, forks, orphaned tips, TCs reporting rounds above '
@@ -105,7 +105,7 @@ PROPS = {
     },
     'C19': {
         'vo': NODE_VO,
-        'sites': ['g_quorum_consensus', 'g_qcm_threshold', 'g_qcm_reset', 'g_tcm_threshold', 'g_tcm_reset', 'g_qc_weight', 'g_tc_weight', 'g_qc_entry_stake', 'g_tc_entry_stake', 'g_vote_stale', 'g_timeout_stale'],
+        'sites': ['g_quorum_consensus', 'g_qcm_threshold', 'g_qcm_reset', 'g_tcm_threshold', 'g_tcm_reset', 'g_agg_keep_votes', 'g_agg_keep_timeouts', 'g_qc_weight', 'g_tc_weight', 'g_qc_entry_stake', 'g_tc_entry_stake', 'g_vote_stale', 'g_timeout_stale'],
         'corr': [step_run([NET, PROP, STATE], [M_C19]), {'name': 'aggregator', 'bin': 'comp', 'mode': 'aggregator', 'quick': 150, 'thorough': 3000, 'agree': [1], 'monitors': [2, 3]}],
         'rule': STEP_RULE, 'assumptions': STEP_ASSUME,
     },
@@ -149,8 +149,11 @@ PROPS = {
     'C18': {
         'vo': ['Codec.vo', 'Base64Defs.vo', 'WireDefs.vo', 'CorrComp.vo', 'CorrCodec.vo'],
         'sites': ['g_pk_decode_exact', 'g_sk_decode_exact'],
-        'corr': [{'name': 'keys', 'bin': 'codec', 'mode': 'keys', 'emit': 'codec_keys', 'quick': 150, 'thorough': 3000, 'agree': [1, 2, 3, 4], 'monitors': [5]}],
-        'rule': 'random byte strings of every length mod 3, public and secret keys: real encode_base64/decode_base64 and base64 0.13 vs the Gallina model; distinct = distinct inputs',
+        'corr': [{'name': 'keys', 'bin': 'codec', 'mode': 'keys', 'emit': 'codec_keys', 'quick': 150, 'thorough': 3000, 'agree': [1, 2, 3, 4], 'monitors': [5]},
+                 {'name': 'sigs', 'bin': 'comp', 'mode': 'sigs', 'quick': 80, 'thorough': 1500, 'agree': [], 'monitors': [1, 2, 3, 4, 5]}],
+        'rule': 'keys: random byte strings of every length mod 3, public and secret keys: real encode_base64/decode_base64 and base64 0.13 vs the Gallina model; '
+                'sigs (differential only, no model of Ed25519): fresh keys, batches of 1..5; honest signatures verify alone and batched; 24 single-bit flips of signature (incl. the malformed top bits), digest, key rejected; '
+                '16 batches per case with 0, 1 or all members corrupted in 6 ways: batch accepts exactly when every member verifies individually; the signature service signs what Signature::new signs',
         'assumptions': ['Ed25519 (dalek: sign, verify_strict, verify_batch) correct and unforgeable: NOT formalised; that half of C18 is differential only',
                         'base64 0.13 STANDARD config as modelled from its decode.rs (compared on every case)'],
     },
@@ -185,9 +188,9 @@ PROPS = {
 }
 PROPS['C06'] = {
     'vo': NODE_VO + ['LivenessDefs.vo'],
-    'sites': ['g_advance_guard', 'g_advance_next', 'g_update_high_qc', 'g_timeout_stale', 'g_vote_stale', 'g_tcm_threshold', 'g_qcm_threshold', 'g_safety_rule_1', 'g_safety_rule_2', 'g_can_extend', 'g_can_extend_hq', 'g_two_chain', 'g_quorum_consensus'],
+    'sites': ['g_advance_guard', 'g_advance_next', 'g_update_high_qc', 'g_timeout_stale', 'g_vote_stale', 'g_tcm_threshold', 'g_qcm_threshold', 'g_agg_keep_votes', 'g_agg_keep_timeouts', 'g_safety_rule_1', 'g_safety_rule_2', 'g_can_extend', 'g_can_extend_hq', 'g_two_chain', 'g_quorum_consensus'],
     'corr': [{'name': 'runloop', 'bin': 'runloop', 'mode': 'smoke', 'emit': 'runloop', 'quick': 24, 'thorough': 200, 'agree': [], 'monitors': list(range(1, 19)), 'timeout': 600},
-             step_run([NET, PROP, STATE, RES], [M_C10, M_C19], quick=120)],
+             step_run([NET, PROP, STATE, RES], [M_C10, M_C19, M_C06], quick=160)],
     'rule': 'run-loop smoke: the REAL Core::spawn (select! loop and Timer) on a paused clock, committee of 4, random node and timeout delay, four scenarios per case (idle timeouts re-armed; proposal then timer reset on round change; '
             'TC assembled from three timeouts; invalid messages do not stop the loop); plus ' + STEP_RULE,
     'assumptions': STEP_ASSUME + ['PARTIAL: only the enabling side of liveness is a theorem; nothing involving real time, message-delay bounds versus the timeout, scheduler fairness or loss on best-effort links is proved (the model has no clock)'],
